@@ -25,13 +25,15 @@ MANIFEST = dict(
          "accumulator is exactly the wrapping sum of the solo mixes for every voice list; C14_quantisation bounds full-vs-sum-of-solos "
          "after the downmix by n-1 steps when nothing clamps; C14_silence_voice/_run/_contrib/_buffer/_output prove that volume 0 from the "
          "first tick gives an all-zero buffer and the mid-scale constant, C14_silence_mute that a muted root forces volume 0, "
-         "C14_silence_master_partial that master volume 0 silences voices on module channels; C14_separation_zero/_mirror_pan/_mirror_vol/"
+         "C14_silence_master_full that master volume 0 silences every voice of the module (module channels and their background/NNA "
+         "voices) for the repaired rule of process_volume, C14_silence_master_counterexample refutes it for the pinned rule (finding F6) and "
+         "C14_silence_master_status decides which one applies from the flag the translator regenerates from src/player.c on every run; C14_separation_zero/_mirror_pan/_mirror_vol/"
          "_mirror/_mirror_tick/_zero_tick prove separation 0 => L=R and mix -> -mix swaps left/right for a whole voice tick. "
          "The model is tied to the C on every run (accumulator-exact solo decomposition of the real libxmp_mixer_softmixer, kernel spies, "
          "twin contexts) and a direct oracle searches whole renders for failing inputs.",
-    note="PARTIAL for master volume: the code as it is scales background (NNA) voices by smix_vol, not master_vol (player.c, test "
-         "`chn < mod.chn`), so 'master volume 0 => silence' is false for modules with new-note actions; the model follows the code, "
-         "C14_silence_master_counterexample proves the negation and the oracle reports signature silence:master_vol:nna (finding F6). "
+    note="Finding F6 (background/NNA voices scaled by smix_vol instead of master_vol) was repaired in /repo (24b5355); the model follows "
+         "whichever rule the working tree has (generated flag nnaRootRule) and the oracle keeps it_note_delay_nna.it with master volume 0 as "
+         "a regression case (signature silence:master_vol:nna). "
          "Modelled-not-verified: that each kernel's sample sequence (interpolation, filter, Paula BLEP) is a function of the voice alone is "
          "established by the exact per-tick solo decomposition on the cases run, not by a theorem about mix_all.c; voice allocation / "
          "eviction (virtual.c alloc_voice/free_voice), effect processing and envelopes before the volume tail, the sample position "
@@ -46,7 +48,8 @@ REQUIRED = ["Xmp.MixLinear." + n for n in (
     "C14_superposition", "C14_superposition_mix", "C14_superposition_perm", "C14_superposition_append",
     "C14_solo_independent", "C14_superposition_pointwise", "C14_quantisation_int", "C14_quantisation",
     "C14_silence_buffer", "C14_silence_output", "C14_silence_voice", "C14_silence_run", "C14_silence_contrib",
-    "C14_silence_mute", "C14_silence_master_partial", "C14_silence_master_counterexample",
+    "C14_silence_mute", "C14_silence_master_partial", "C14_silence_master_full", "C14_silence_master_counterexample",
+    "C14_silence_master_status",
     "C14_separation_zero", "C14_separation_mirror_pan", "C14_separation_mirror_vol", "C14_separation_mirror",
     "C14_separation_mirror_tick", "C14_separation_zero_tick")]
 
@@ -126,6 +129,9 @@ def model_compare(ck, what, out, stats):
         if ok:
             ck.cov["traces_validated_against_impl"] += 1
         else:
+            stats["model_mismatch_" + kind] = stats.get("model_mismatch_" + kind, 0) + 1
+            if stats["model_mismatch_" + kind] > 3:      # the first three per kind are reported, the rest counted
+                continue
             first = next((i for i, (a, b) in enumerate(zip(ef, gf)) if a != "*" and a != b), -1)
             ck.unproved("correspondence MixLinear.%s vs the C (%s)" % (
                 {"sum": "tick", "vol": "volLR/level/rampDelta", "kern": "kernel", "dmx": "outSample", "vt": "voiceTick",
@@ -166,6 +172,9 @@ def run(ck):
                 sig = line.split()[1]
                 mod = module_of(line)
                 path = next((m for m in sh[4] if os.path.basename(m) == mod), mod)
+                bump("tie_fail_" + sig)
+                if stats["tie_fail_" + sig] > 3:
+                    continue
                 # the accumulator identity *is* the property at the level of one tick
                 ck.violation(sig + ":" + mod, replay_obj("tie", seed, nfr, path, line),
                              "the mix of a tick is not the sum of its voices' solo mixes: " + line[:300])
@@ -197,10 +206,12 @@ def run(ck):
                 if line.startswith("oracle_fail "):
                     sig = line.split()[1]
                     path = module_of(line)
-                    ck.violation(sig if sig.endswith(":nna") else sig + ":" + os.path.basename(path),
-                                 replay_obj(mode, seed, nfr, path, line),
-                                 "C14 oracle (%s) failed on the real code: %s" % (mode, line[:400]))
                     bump("oracle_fail_" + sig)
+                    # at most 3 replay files per kind of failure; the rest is counted
+                    if stats["oracle_fail_" + sig] <= 3:
+                        ck.violation(sig if sig.endswith(":nna") else sig + ":" + os.path.basename(path),
+                                     replay_obj(mode, seed, nfr, path, line),
+                                     "C14 oracle (%s) failed on the real code: %s" % (mode, line[:400]))
                 elif line.startswith(statname + " "):
                     on_stat(line)
 
@@ -238,6 +249,10 @@ def run(ck):
     for k, v in sorted(stats.items()):
         ck.note(k, v)
     ck.note("generated_consts", os.path.relpath(gen_mixlinear.OUTFILE, vlib.VERIF))
+    gen = open(gen_mixlinear.OUTFILE).read()
+    m = re.search(r"/-- master-volume rule of process_volume: (.*?) -/\ndef nnaRootRule : Bool := (\w+)", gen)
+    ck.note("master_volume_rule", "%s (nnaRootRule = %s)" % (m.group(1), m.group(2)) if m else "?")
+    ck.note("unrecognised_code_shapes", re.findall(r"def (\w+) : Option Nat := none", gen))
     ck.cov["rule"] = ("evaluations = ticks whose accumulator was compared exactly with the sum of per-voice solo mixes + model cases "
                       "replayed on the Lean driver + oracle renders; distinct by (module, seed) resp. hash of the case line; "
                       "non-trivial = tick sets with >= 2 simultaneously active voices, model cases with a non-zero expected result, "
